@@ -176,6 +176,9 @@ def gen(t, tier):
     sc['mtime_res'] = t.pick([None, None, None, 1.0, 2.0])      # granularity of the file system's time stamps
     # the same level selection spelled as `resolutions:` (the exact resolutions of the selected levels of this grid)
     sc['levels_as_res'] = t.chance(0.2)
+    # ... and the cleanup entry may name a second grid of the cache first (another SRS, another resolution -> level mapping, no
+    # tiles stored for it): the level selection is worked out per grid
+    sc['second_grid'] = t.chance(0.5) if sc['levels_as_res'] else False
     return sc
 
 
@@ -300,6 +303,11 @@ def _run(sc, tape):
         cache_conf['table_name'] = 'tiles'
     conf = F.base_conf(cache_conf, meta_size=sc['meta_size'], link=link or False, refresh_before=sc.get('cache_refresh'))
     conf['grids']['g'] = dict(sc['grid'])
+    two_grids = bool(sc.get('second_grid') and sc.get('levels_as_res') and b['type'] == 'file' and not link
+                     and 'directory' not in cache_conf)
+    if two_grids:
+        conf['grids']['g0'] = {'srs': 'EPSG:4326', 'tile_size': [8, 8], 'num_levels': 4, 'origin': 'll'}
+        conf['caches']['c1']['grids'] = ['g', 'g0']
     if sc.get('cache_coverage'):
         ext = sc['grid'].get('bbox') or [-U.H, -U.H, U.H, U.H]
         f = sc['cache_coverage']
@@ -321,7 +329,7 @@ def _run(sc, tape):
 
     def driver():
         pc = F.make_app(conf)[1]
-        tm = [tmx for _, _, tmx in pc.caches['c1'].caches()][0]
+        tm = [tmx for g_, _, tmx in pc.caches['c1'].caches() if getattr(g_, 'name', None) != 'g0'][0]
         tm2 = [tmx for _, _, tmx in pc.caches['c2'].caches()][0]
         cache = tm.cache
         grid = tm.grid
@@ -494,6 +502,9 @@ def _run(sc, tape):
             if as_res:
                 cconf['resolutions'] = as_res
                 probes['levels_given_as_resolutions'] = 1
+                if two_grids:
+                    cconf['grids'] = ['g0', 'g']
+                    probes['cleanup_entry_with_two_grids'] = 1
             else:
                 cconf['levels'] = lv
         T = None
@@ -631,7 +642,7 @@ def _run(sc, tape):
         else:
             sel = set(range(sc['levels'].get('from', 0), min(sc['levels'].get('to', nlev - 1), nlev - 1) + 1))
         from shapely.geometry import box as sbox
-        fresh_cache = [tmx for _, _, tmx in F.make_app(conf)[1].caches['c1'].caches()][0].cache
+        fresh_cache = [tmx for g_, _, tmx in F.make_app(conf)[1].caches['c1'].caches() if getattr(g_, 'name', None) != 'g0'][0].cache
         n_removed = n_kept = 0
         for coord in sorted(times_of):
             present = _present(w, fresh_cache, pc, coord, b)
